@@ -468,6 +468,14 @@ fn discipline(ctx: &Ctx, rep: &mut Report) {
     cases.push(("orig-middle".into(), Program { lines: vec![Line::stmt(None, halt()), orig(0x4000), Line::stmt(None, halt())] }, false));
     cases.push(("orig-first-and-last".into(), Program { lines: vec![orig(0x3000), Line::stmt(None, halt()), Line::stmt(None, halt()), orig(0x3000)] }, false));
     cases.push(("orig-thrice".into(), Program { lines: vec![orig(1), Line::stmt(None, halt()), orig(2), Line::stmt(None, halt()), orig(3)] }, false));
+    // words that start like a hex literal (x.., X.., 0x..) but are none are labels, up to the next
+    // blank: `xq.lo`, `xq.hi`, `xq-1` and `xq` are four different names
+    let fill = |l: &str, v: u16| Line::stmt(Some(l), Stmt::new(Op::Fill, &[], Operand::Lit(Lit::Hex(v, 0))));
+    for (a, b) in [("xq.lo", "xq.hi"), ("xq-1", "xq-2"), ("xq", "xq.lo"), ("Xz_a.1", "Xz_a.2"), ("0xq.a", "0xq.b"), ("xq.lo", "xq.lo.x")] {
+        cases.push((format!("x-word-labels-distinct-{a}"), Program { lines: vec![Line::stmt(None, refl(Op::Ld, b)), Line::stmt(None, refl(Op::Lea, a)), Line::stmt(None, halt()), fill(a, 1), fill(b, 2)] }, false));
+        cases.push((format!("x-word-label-undefined-sibling-{a}"), Program { lines: vec![Line::stmt(None, refl(Op::Ld, b)), Line::stmt(None, halt()), fill(a, 1)] }, false));
+        cases.push((format!("x-word-label-duplicate-{a}"), Program { lines: vec![Line::stmt(None, refl(Op::Ld, a)), Line::stmt(None, halt()), fill(a, 1), fill(a, 2)] }, false));
+    }
     let mut n = 0u64;
     for (focus, program, stack) in cases {
         for style in 0..3u8 {
@@ -641,7 +649,7 @@ impl Prop for C04 {
     }
     fn rule(&self) -> &'static str {
         "Deterministic matrices (every run): (a) every literal-bearing instruction form x {min-2..min+1, -1, 0, 1, max-1..max+2, 0x7FFF, 0x8000, 0xFFFF, -32768, 16-bit patterns at the two's-complement limits} x spellings (#dec, xH, 0xH, XH, x-H, 0x-H), and the limits of every form again on words 32,766..32,768 and 65,532..65,534 of a long program; \
-         (b) label distances exactly at/around +-2^(n-1) for every PC-relative form (8 BR spellings, LD/LDI/LEA/ST/STI, JSR, CALL) built with .blkw padding, before/after/on the statement, at the start of the program and straddling word 32768 of it; (c) undefined / duplicate / case-differing labels; (d) .orig zero, once, twice, in the middle; \
+         (b) label distances exactly at/around +-2^(n-1) for every PC-relative form (8 BR spellings, LD/LDI/LEA/ST/STI, JSR, CALL) built with .blkw padding, before/after/on the statement, at the start of the program and straddling word 32768 of it; (c) undefined / duplicate / case-differing labels, incl. words that start like a hex literal but are labels (`xq.lo` / `xq.hi` / `xq-1` / `xq` are different names); (d) .orig zero, once, twice, in the middle; \
          (e) random programs with 0-2 injected misfits (literal out of range, undefined label, duplicate label, repeated .orig, label pushed out of reach). Oracle: accepted <=> RefAsm.accepts(AST); when accepted the image equals the encoder's; when rejected there is a diagnostic, not a panic. \
          Non-trivial: focus operand within +-1 of a field limit, a label-discipline / .orig case, or a random program with an injected misfit. Distinct = hash(AST, flag)."
     }
